@@ -36,6 +36,9 @@ RECEIVERS = {
     "plain": {"want": 0, "endpoints": "full"},
     "want-signed": {"want": 1, "endpoints": "full"},
     "redirect-only": {"want": 0, "endpoints": "redirect-only"},
+    # every further option of the receiver that touches what is done with a signature
+    "valid-cert-only": {"want": 0, "endpoints": "full", "extra": {"want_authn_requests_only_with_valid_cert": True}},
+    "want-signed+valid-cert-only": {"want": 1, "endpoints": "full", "extra": {"want_authn_requests_only_with_valid_cert": True}},
     # a stand-alone attribute authority (no idp section at all); it only takes attribute queries
     "aa-alone-plain": {"want": 0, "endpoints": "full", "kind": "aa"},
     "aa-alone-want-signed": {"want": 1, "endpoints": "full", "kind": "aa"},
@@ -104,7 +107,7 @@ def _ents(ctx, rname):
         eps = None
         if r["endpoints"] == "redirect-only":
             eps = {"single_sign_on_service": [(fed.SSO_REDIRECT, BINDING_HTTP_REDIRECT)], "single_logout_service": [(fed.SLO_IDP, BINDING_HTTP_REDIRECT)]}
-        idc = fed.idp_conf(endpoints=eps, want_authn_requests_signed=bool(r["want"]))
+        idc = fed.idp_conf(endpoints=eps, want_authn_requests_signed=bool(r["want"]), **r.get("extra", {}))
         idc["service"]["aa"] = {"endpoints": {"attribute_service": [(AA_URL, BINDING_SOAP)]}, "policy": fed.DEFAULT_POLICY}
         idc["service"]["idp"]["endpoints"]["manage_name_id_service"] = [(MNI_URL, BINDING_SOAP)]
         idc["service"]["idp"]["endpoints"]["name_id_mapping_service"] = [(EXTRA_URLS["name_id_mapping"], BINDING_SOAP)]
